@@ -28,6 +28,10 @@ fn gen_operand(c: &mut dyn Choices) -> E {
         let k = near_constants();
         return E::Lit(k[c.below(k.len() as u32) as usize].to_string());
     }
+    if c.below(8) == 7 {
+        // a plain real literal (1+X, 2*X, X-1 ... are the shapes log1p/expm1-style helpers look for)
+        return E::Lit(["1", "2", "0.5", "3", "10"][c.below(5) as usize].to_string());
+    }
     let a = PARTS[c.below(PARTS.len() as u32) as usize];
     let b = PARTS[c.below(PARTS.len() as u32) as usize];
     let re = E::Lit(a.to_string());
@@ -77,6 +81,12 @@ fn literal_cases() -> &'static Vec<String> {
             v.push(format!("({}i)", l));
             v.push(format!("{}i*i", l));
             v.push(format!("i*{}i", l));
+        }
+        // leading-dot and trailing-dot spellings with more digits than a double (or a u64) holds
+        for l in [".31177534565567863", ".57721566490153286060", ".1000000000000000055511151231257827", ".9999999999999999", ".99999999999999994", ".99999999999999995", ".49999999999999997", ".000000000000000000001", ".12345678901234567890123456789", "31177534565567863.", "57721566490153286060."] {
+            for t in [l.to_string(), format!("{}i", l), format!("{}+{}i", l, l), format!("2*{}", l), format!("-{}i", l)] {
+                v.push(t);
+            }
         }
         v.extend(["i*i", "i^2", "i²", "(i)(i)", "-i", "+i", "i+i", "i-i", "2i*3i", "pi", "π", "e", "pi*i", "e*i", "i/i", "(1+i)*(1-i)", "(1+2i)*(3+4i)", "(1+2i)-(3+4i)", "-(1+2i)"].iter().map(|s| s.to_string()));
         v
